@@ -1234,6 +1234,19 @@ func specDecodedLen(buf []byte) uint64 { _, n, _ := specScan(buf); return n }
 //@   ensures fresh: !sameSlice(result.Tape, pj.Tape) && !sameSlice(result.Message, pj.Message) && result.Strings != pj.Strings && result.internal == nil
 //@   safe
 
+// Clone into a caller-supplied destination: the result is that destination, holds exactly pj's contents (nothing of
+// the destination's earlier contents survives within the result's lengths) and is detached from any parser object.
+//@ func (*ParsedJson).Clone variant reuse
+//@   props C16 C15
+//@   requires dst != nil && pj.Strings != nil
+//@   ensures same: result == dst
+//@   ensures lens: len(result.Tape) == len(pj.Tape) && len(result.Message) == len(pj.Message) && result.Strings != nil && len(result.Strings.B) == len(pj.Strings.B)
+//@   ensures tape: forall(0, len(pj.Tape), func(j int) bool { return result.Tape[j] == pj.Tape[j] })
+//@   ensures msg: forall(0, len(pj.Message), func(j int) bool { return result.Message[j] == pj.Message[j] })
+//@   ensures strs: forall(0, len(pj.Strings.B), func(j int) bool { return result.Strings.B[j] == pj.Strings.B[j] })
+//@   ensures detached: result.internal == nil
+//@   safe
+
 // ---------------------------------------------------------------------------
 // Float printing (C18, C10). The Ryu core and fmtF are token-identical to strconv (frame/congr obligations);
 // here: the format choice of appendFloat is encoding/json's, non-finite values are refused, and appendFloatF
